@@ -14,7 +14,7 @@ fixed); float casts (`as u64`, saturating) and saturating_* calls carry no panic
 must be a listed exception. obligations == discharged is required. In addition (structural, not at proof
 level): clause 3 checks the operand pairing of the estimators — each price component (exec, da) is compounded
 with its own maximum change rate between for_height and the requested height and the estimate is the
-saturating sum of the components — a necessary condition of the lower-bound clause.
+saturating sum of the components — a necessary condition of the lower-bound clause. Clause 4 (structural): AlgorithmUpdaterV1::algorithm fills each AlgorithmV1 field from its own source (exec price/rate, DA price/max DA rate, block height) and from no other.
 """
 NOT_DECIDED = """Monotonicity in the horizon and the lower bound against compounded integer rounding —
 floating-point value properties, not decidable structurally."""
